@@ -265,7 +265,7 @@ def rand_kv(rng, p=None, nint=None, maxmult=None, interval=None, pmax=4, nintmax
         else:
             t = rng.choice(GRID)
         vals.add(a + (b - a) * t)
-    mm = (p + 1) if maxmult is None else maxmult
+    mm = (p + 1) if maxmult is None else min(maxmult, p + 1)
     U = [a] * (p + 1)
     for v in sorted(vals):
         U += [v] * rng.randint(1, max(1, mm))
